@@ -487,6 +487,8 @@ struct Walker<'s> {
     cut_defs: Vec<String>,
     cut_info: Vec<serde_json::Value>,
     r2: bool,
+    /// R17: (variable, closure parameter pattern, rewritten closure body) of a desugared lazy `flat_map`
+    fm: Option<(String, String, String)>,
 }
 
 fn has_cfg_log(attrs: &[syn::Attribute]) -> Option<bool> {
@@ -858,6 +860,39 @@ impl<'s> Walker<'s> {
                     self.strip_attrs(&l.attrs);
                 }
                 let mut k = (K::Other, K::Other);
+                // R17: `let mut G = RECV.flat_map(|P| BODY);` whose closure mutates captured state (outside R13), with `G` used only
+                // through `G.next()`: the definition of `FlatMap::next` is written out at each `G.next()` (see the `next` arm of
+                // walk_expr).  Here:  `let mut G = RECV; let mut verif_fm_front_G = Vec::new();`  — the outer iterator and the
+                // not yet delivered items of the current inner iterator.  BODY is moved (with its rewrites) to the pull sites.
+                if let (Some(want), Some(init), syn::Pat::Ident(pi)) = (self.ov.opts.get("desugar_flat_map"), &l.init, &l.pat) {
+                    if *want == pi.ident.to_string() {
+                        if let syn::Expr::MethodCall(m) = &*init.expr {
+                            if m.method == "flat_map" && m.args.len() == 1 {
+                                if let syn::Expr::Closure(c) = &m.args[0] {
+                                    if c.inputs.len() == 1 && self.fm.is_none() {
+                                        let g = pi.ident.to_string();
+                                        let (_, rend) = self.src.range(m.receiver.span());
+                                        let (_, iend) = self.src.range(init.expr.span());
+                                        let (ps, pe) = self.src.range(c.inputs[0].span());
+                                        let (bs, be) = self.src.range(c.body.span());
+                                        let before = self.edits.len();
+                                        self.env.push(HashMap::new());
+                                        self.bind_pat(&c.inputs[0], (K::Other, K::Other));
+                                        self.walk_expr(&c.body);
+                                        self.env.pop();
+                                        let mut body_edits: Vec<Edit> = self.edits.drain(before..).collect();
+                                        let (body_txt, _) = apply(self.src, bs, be, &mut body_edits);
+                                        self.fm = Some((g.clone(), self.src.text[ps..pe].to_string(), body_txt));
+                                        self.replace((rend, iend), &format!("; let mut verif_fm_front_{} = ::std::vec::Vec::new()", g), "R17");
+                                        self.walk_expr(&m.receiver);
+                                        self.bind_pat(&l.pat, k);
+                                        return;
+                                    }
+                                }
+                            }
+                        }
+                    }
+                }
                 if let Some(init) = &l.init {
                     self.walk_expr(&init.expr);
                     let kk = self.kind(&init.expr);
@@ -1206,6 +1241,24 @@ impl<'s> Walker<'s> {
                     "inline_size" if m.args.is_empty() => {
                         // R3: SmallVec-only API; under A-SV the inline capacity is an arbitrary number
                         self.replace((es, ee), "verif_smallvec_inline_size()", "R3");
+                        self.depth -= 1;
+                        return;
+                    }
+                    "next" if m.args.is_empty()
+                        && matches!((&self.fm, &*m.receiver), (Some((g, _, _)), Path(p)) if p.path.is_ident(g.as_str())) =>
+                    {
+                        // R17: `G.next()` on the desugared lazy flat_map: the definition of `FlatMap::next` (deliver the buffered items
+                        // of the current inner iterator; when there is none pull the outer iterator, run the closure, buffer its items;
+                        // end when the outer iterator ends), with the closure body at the place where it runs.
+                        let (g, pat, body) = self.fm.clone().unwrap();
+                        self.loops += 1;
+                        let name = format!("L{}", self.loops);
+                        let inv = self.anchor_text(&format!("{}.inv", name)).unwrap_or_default();
+                        let text = format!(
+                            "{{ let mut verif_fm_out = None;\n loop\n{inv}\n {{\n if verif_fm_front_{g}.len() > 0 {{ verif_fm_out = Some(verif_fm_front_{g}.remove(0)); break; }}\n match {g}.next() {{ None => {{ break; }} Some({pat}) => {{ verif_fm_front_{g} = verif_array_into_vec({body}); }} }}\n }}\n verif_fm_out }}",
+                            inv = inv.trim_end(), g = g, pat = pat, body = body
+                        );
+                        self.replace((es, ee), &text, "R17");
                         self.depth -= 1;
                         return;
                     }
@@ -1964,6 +2017,7 @@ fn extract_fn(src: &Src, file: &syn::File, selector: &str, ov: &FnOverlay, map: 
         cut_defs: Vec::new(),
         cut_info: Vec::new(),
         r2: ov.opts.get("r2").map(|v| v != "off").unwrap_or(true),
+        fm: None,
     };
     let mut sigrules: Vec<(&'static str, usize)> = Vec::new();
     // ---- signature, rebuilt from source slices -------------------------------------------------
@@ -2001,7 +2055,7 @@ fn extract_fn(src: &Src, file: &syn::File, selector: &str, ov: &FnOverlay, map: 
                 }
                 first = false;
                 // parameter type with R3 applied
-                let mut tw = Walker { src, ov, edits: Vec::new(), depth: 0, loops: 0, closures: 0, ifs: 0, matches: 0, folds: 0, block_stmts: HashMap::new(), shapes_seen: vec![], realigned: vec![], block_alias: HashMap::new(), ctx: vec![], env: vec![HashMap::new()], used: HashSet::new(), cut_defs: vec![], cut_info: vec![], r2: true };
+                let mut tw = Walker { src, ov, edits: Vec::new(), depth: 0, loops: 0, closures: 0, ifs: 0, matches: 0, folds: 0, block_stmts: HashMap::new(), shapes_seen: vec![], realigned: vec![], block_alias: HashMap::new(), ctx: vec![], env: vec![HashMap::new()], used: HashSet::new(), cut_defs: vec![], cut_info: vec![], r2: true, fm: None };
                 tw.walk_type(&pt.ty);
                 let (ts, te) = src.range(pt.ty.span());
                 let (tytxt, _) = apply(src, ts, te, &mut tw.edits);
@@ -2036,7 +2090,7 @@ fn extract_fn(src: &Src, file: &syn::File, selector: &str, ov: &FnOverlay, map: 
         eprintln!("MTX-PARAMS\t{}\t{}", selector, names.join(" "));
     }
     if let syn::ReturnType::Type(_, ty) = &sig.output {
-        let mut tw = Walker { src, ov, edits: Vec::new(), depth: 0, loops: 0, closures: 0, ifs: 0, matches: 0, folds: 0, block_stmts: HashMap::new(), shapes_seen: vec![], realigned: vec![], block_alias: HashMap::new(), ctx: vec![], env: vec![HashMap::new()], used: HashSet::new(), cut_defs: vec![], cut_info: vec![], r2: true };
+        let mut tw = Walker { src, ov, edits: Vec::new(), depth: 0, loops: 0, closures: 0, ifs: 0, matches: 0, folds: 0, block_stmts: HashMap::new(), shapes_seen: vec![], realigned: vec![], block_alias: HashMap::new(), ctx: vec![], env: vec![HashMap::new()], used: HashSet::new(), cut_defs: vec![], cut_info: vec![], r2: true, fm: None };
         tw.walk_type(ty);
         let (ts, te) = src.range(ty.span());
         let (tytxt, _) = apply(src, ts, te, &mut tw.edits);
@@ -2070,7 +2124,7 @@ fn extract_fn(src: &Src, file: &syn::File, selector: &str, ov: &FnOverlay, map: 
         let mut sr: Vec<(&'static str, usize)> = Vec::new();
         if let Some(im) = sel.imp {
             let g = generics_text(src, &im.generics, &mut sr);
-            let mut tw = Walker { src, ov, edits: Vec::new(), depth: 0, loops: 0, closures: 0, ifs: 0, matches: 0, folds: 0, block_stmts: HashMap::new(), shapes_seen: vec![], realigned: vec![], block_alias: HashMap::new(), ctx: vec![], env: vec![HashMap::new()], used: HashSet::new(), cut_defs: vec![], cut_info: vec![], r2: true };
+            let mut tw = Walker { src, ov, edits: Vec::new(), depth: 0, loops: 0, closures: 0, ifs: 0, matches: 0, folds: 0, block_stmts: HashMap::new(), shapes_seen: vec![], realigned: vec![], block_alias: HashMap::new(), ctx: vec![], env: vec![HashMap::new()], used: HashSet::new(), cut_defs: vec![], cut_info: vec![], r2: true, fm: None };
             tw.walk_type(&im.self_ty);
             let (ts, te) = src.range(im.self_ty.span());
             let (selfty, _) = apply(src, ts, te, &mut tw.edits);
@@ -2192,7 +2246,7 @@ fn extract_fn(src: &Src, file: &syn::File, selector: &str, ov: &FnOverlay, map: 
     let mut pre_lines = 0usize;
     if let Some(im) = sel.imp {
         let g = generics_text(src, &im.generics, &mut sigrules);
-        let mut tw = Walker { src, ov, edits: Vec::new(), depth: 0, loops: 0, closures: 0, ifs: 0, matches: 0, folds: 0, block_stmts: HashMap::new(), shapes_seen: vec![], realigned: vec![], block_alias: HashMap::new(), ctx: vec![], env: vec![HashMap::new()], used: HashSet::new(), cut_defs: vec![], cut_info: vec![], r2: true };
+        let mut tw = Walker { src, ov, edits: Vec::new(), depth: 0, loops: 0, closures: 0, ifs: 0, matches: 0, folds: 0, block_stmts: HashMap::new(), shapes_seen: vec![], realigned: vec![], block_alias: HashMap::new(), ctx: vec![], env: vec![HashMap::new()], used: HashSet::new(), cut_defs: vec![], cut_info: vec![], r2: true, fm: None };
         tw.walk_type(&im.self_ty);
         let (ts, te) = src.range(im.self_ty.span());
         let (selfty, _) = apply(src, ts, te, &mut tw.edits);
@@ -2285,7 +2339,7 @@ fn extract_struct(src: &Src, file: &syn::File, name: &str, opts: &HashMap<String
                 t.push_str(&format!("pub struct {}{} {{\n", s.ident, g));
                 let mut n_r3 = 0;
                 for f in s.fields.iter() {
-                    let mut tw = Walker { src, ov: &ov, edits: Vec::new(), depth: 0, loops: 0, closures: 0, ifs: 0, matches: 0, folds: 0, block_stmts: HashMap::new(), shapes_seen: vec![], realigned: vec![], block_alias: HashMap::new(), ctx: vec![], env: vec![HashMap::new()], used: HashSet::new(), cut_defs: vec![], cut_info: vec![], r2: true };
+                    let mut tw = Walker { src, ov: &ov, edits: Vec::new(), depth: 0, loops: 0, closures: 0, ifs: 0, matches: 0, folds: 0, block_stmts: HashMap::new(), shapes_seen: vec![], realigned: vec![], block_alias: HashMap::new(), ctx: vec![], env: vec![HashMap::new()], used: HashSet::new(), cut_defs: vec![], cut_info: vec![], r2: true, fm: None };
                     tw.walk_type(&f.ty);
                     n_r3 += tw.edits.len();
                     let (ts, te) = src.range(f.ty.span());
